@@ -231,6 +231,8 @@ class TranslatorBase(object):
             return self.declare(CountVec(name))
         if k == 'string':
             return self.declare(StrV(name))
+        if k == 'mutex':
+            return MutexV(name)
         if k == 'structvec':
             cls = self.class_of(td)
             fields = []
